@@ -239,3 +239,18 @@ CORPUS += [
     V("C07", "ffsp-schedule-sentinel-minus-one", _FF, "            fill_value=-999999,", "            fill_value=-1,", "C07.k"),
     V("C07", "ffsp-machine-getter-reads-the-stage-table", _FF, "        return self.machine_table[pomo_idx, sub_time_idx]", "        return self.stage_machine_table[pomo_idx, sub_time_idx]", "C07.k"),
 ]
+
+# ---- rules added after the sixth seeding round
+_CRIT = "rl4co/models/rl/common/critic.py"
+_MDM = "rl4co/models/zoo/mdam/model.py"
+CORPUS += [
+    V("C20", "exponential-beta-falsy-default", _BLF, "    def __init__(self, beta=0.8, **kw):\n        super(REINFORCEBaseline, self).__init__()\n\n        self.beta = beta", "    def __init__(self, beta=None, **kw):\n        super(REINFORCEBaseline, self).__init__()\n\n        self.beta = beta or 0.8", "C20.g"),
+    V("C20", "eq-exponential-beta-none-default", _BLF, "    def __init__(self, beta=0.8, **kw):\n        super(REINFORCEBaseline, self).__init__()\n\n        self.beta = beta", "    def __init__(self, beta=None, **kw):\n        super(REINFORCEBaseline, self).__init__()\n\n        self.beta = 0.8 if beta is None else beta", None),
+    V("C16", "exponential-beta-falsy-default-c16", _BLF, "    def __init__(self, beta=0.8, **kw):\n        super(REINFORCEBaseline, self).__init__()\n\n        self.beta = beta", "    def __init__(self, beta=None, **kw):\n        super(REINFORCEBaseline, self).__init__()\n\n        self.beta = beta or 0.8", "C16.g"),
+    V("C20", "warmup-setup-resets-the-schedule", _BLF, "    def setup(self, *args, **kw):\n        self.baseline.setup(*args, **kw)", "    def setup(self, *args, **kw):\n        self.alpha = 0\n        self.baseline.setup(*args, **kw)", "C20.g"),
+    V("C20", "scaler-updated-by-the-loss-as-well", _RFF, "        advantage = self.advantage_scaler(advantage)", "        self.advantage_scaler.update(advantage.detach())\n        advantage = self.advantage_scaler(advantage)", "C20.g"),
+    V("C16", "critic-returns-a-vector", _CRIT, "            return self.value_head(h).mean(1)  # [batch_size, N] -> [batch_size]", "            return self.value_head(h).squeeze(-1).mean(1)", "C16.f"),
+    V("C16", "eq-critic-mean-over-nodes-keyword", _CRIT, "            return self.value_head(h).mean(1)  # [batch_size, N] -> [batch_size]", "            return self.value_head(h).mean(dim=1)", None),
+    V("C17", "mdam-rollout-left-in-training-mode", _MDM, "    model.eval()\n    model = model.to(device)", "    model = model.to(device)", "C17.g"),
+    V("C12", "augmentation-eval-raw-gather-and-squeeze", _EV, "        actions = gather_by_index(actions, max_idxs, dim=1)\n        return actions, rewards\n\n    @property", "        actions = torch.take_along_dim(actions, max_idxs[:, None, None], dim=1).squeeze()\n        return actions, rewards\n\n    @property", "C12.c"),
+]
